@@ -41,6 +41,8 @@ _PARSE = {
     "implies(big_smiles_ext != '[]' and len(preceding_characters) > 0, self.descriptor == big_smiles_ext[1])": "symbol-is-the-character-after-the-bracket",
     "implies(big_smiles_ext != '[]' and len(preceding_characters) > 0 and '|' not in big_smiles_ext, self.weight == 1.0 and is_none(self.transitions))": "no-weight-written-means-weight-one",
     "implies(big_smiles_ext != '[]', self.preceding_characters == preceding_characters)": "characters-before-the-descriptor-kept",
+    # class invariant of descriptors, established here: the empty symbol comes with no id, weight one and no list (only the text '[]' gives it)
+    "implies(self.descriptor == '', big_smiles_ext == '[]' and self.descriptor_id == '' and self.weight == 1.0 and is_none(self.transitions))": "empty-symbol-only-for-the-empty-text",
     # what is NOT accepted (normal exit implies the text was well formed): C15
     "implies(big_smiles_ext != '[]', '@' not in preceding_characters and '/' not in preceding_characters and '\\\\' not in preceding_characters)": "stereo-characters-are-rejected",
     "implies(big_smiles_ext != '[]' and len(preceding_characters) > 0, big_smiles_ext[0] == '[' and big_smiles_ext[len(big_smiles_ext) - 1] == ']' "
@@ -58,3 +60,17 @@ contract("bond.BondDescriptor.__init__#parse", props=["C02", "C15"],
          modifies=["BondDescriptor._raw_text@self", "BondDescriptor.descriptor@self", "BondDescriptor.descriptor_id@self", "BondDescriptor.descriptor_num@self",
                    "BondDescriptor.weight@self", "BondDescriptor.transitions@self", "BondDescriptor.preceding_characters@self", "BondDescriptor.bond_type@self",
                    "BondDescriptor.bond_stereo@self", "BondDescriptor.atom_bonding_to@self"])
+
+
+# ---- the text of one descriptor (C01): verified variant; the generator's callers keep the abstract contract in contracts/stochastic.py ---------------------------
+from pyvc.sorts import BOOL
+_TXT = {
+    "implies(not extension or (is_none(self.transitions) and self.weight == 1.0), result == f'[{self.descriptor}{self.descriptor_id}]')": "without-extension-the-text-is-bracket-symbol-id-bracket",
+    "implies(extension and is_none(self.transitions) and self.weight != 1.0, result == f'[{self.descriptor}{self.descriptor_id}|{self.weight}|]')": "a-single-weight-is-written-between-bars",
+    "(result == '[]') == (self.descriptor == '' and (not extension or (is_none(self.transitions) and self.weight == 1.0)))": "the-text-is-the-empty-descriptor-exactly-for-the-empty-symbol",
+}
+contract("bond.BondDescriptor.generate_string#text", props=["C01"],
+         params=dict(self=Ref("BondDescriptor"), extension=BOOL), returns=STR,
+         requires=["implies(self.descriptor == '', self.descriptor_id == '')"],       # class invariant (established by __init__#parse: empty-symbol-only-for-the-empty-text)
+         ensures=list(_TXT), labels=_TXT, modifies=[], allocates=False,
+         loops={1: dict(anchor="t in self.transitions", inv=["len(string) >= 2 and string[0] == '['"], locals={"string": STR}, modifies=[], allocates=False)})
